@@ -18,6 +18,8 @@ Inductive c06case :=
 | CUse (u : string) (k : key) (expect : res unit)        (* key.check_use(u) *)
 | CAlg (a : string) (k : key) (expect : res unit)        (* key.check_alg(a) *)
 | COp (op : string) (k : key) (expect : res unit)        (* key.check_key_op(op) *)
+| CHist (k : key) (obs : list (string * res unit))
+    (* key.get_op_key(op) called for each op, in this order, on ONE key object *)
 | CWarn (text : bytes) (warned : bool)                   (* OctKey.import_key(text) warns *)
 | CWarnRoutes (text : bytes) (bits : N) (obs : list (text_route * bool)).
     (* the text given through each route: (route, warned); bits = size of the resulting key *)
@@ -54,6 +56,7 @@ Definition c06_model (c : c06case) : res unit :=
   | CUse u k _ => check_use u k
   | CAlg a k _ => check_alg a k
   | COp op k _ => check_key_op op k
+  | CHist k obs => match rev (run_history k (map fst obs)) with r :: _ => r | [] => Ok tt end
   | CWarn t _ => if oct_import_warns t then Ok tt else Err EOracleMiss
   | CWarnRoutes t _ _ => if oct_import_warns t then Ok tt else Err EOracleMiss
   end.
@@ -71,6 +74,13 @@ Definition c06_check (c : c06case) : bool :=
       | m => res_sim m x
       end
   | CUse _ _ x | CAlg _ _ x | COp _ _ x => res_sim (c06_model c) x
+  | CHist k obs =>
+      (fix go (ms : list (res unit)) (xs : list (string * res unit)) : bool :=
+         match ms, xs with
+         | [], [] => true
+         | m :: ms', x :: xs' => res_sim m (snd x) && go ms' xs'
+         | _, _ => false
+         end) (run_history k (map fst obs)) obs
   | CWarn t w => Bool.eqb (oct_import_warns t) w
   | CWarnRoutes t bits obs =>
       forallb (fun rw => Bool.eqb (snd (import_text (fst rw) t)) (snd rw) &&
